@@ -6,6 +6,7 @@ mod props;
 mod refmodel;
 mod sched;
 mod seqx;
+mod timers;
 
 use hosts::HostKind;
 use mc_kit::{Reporter, Tier};
@@ -162,6 +163,95 @@ fn sched_property(tier: Tier, only: Option<String>) -> i32 {
     )
 }
 
+fn timers_property(tier: Tier) -> i32 {
+    use timers::{TKind, TStats};
+    let rep = Reporter::new("C18", tier);
+    let configs: Vec<(Vec<TKind>, usize)> = vec![
+        (vec![TKind::After], 9),
+        (vec![TKind::At], 9),
+        (vec![TKind::After, TKind::After], tier.pick(7, 9)),
+        (vec![TKind::After, TKind::At], tier.pick(8, 10)),
+        (vec![TKind::At, TKind::At], tier.pick(7, 9)),
+        (vec![TKind::After, TKind::At, TKind::After], tier.pick(5, 7)),
+    ];
+    let results = mc_kit::par_map(&configs, |_, (kinds, depth)| {
+        let mut st = TStats::default();
+        let mut found = vec![];
+        let mut sample = None;
+        timers::explore(kinds, *depth, 2, tier.pick(1, 2), &mut st, &mut found, &mut sample);
+        (st, found, sample)
+    });
+    let mut total = TStats::default();
+    let mut per = vec![];
+    let mut samples = vec![];
+    for ((kinds, depth), (st, found, sample)) in configs.iter().zip(results) {
+        per.push(json!({"api": "command", "timers": kinds, "depth_bound": depth, "states": st.states, "transitions": st.transitions,
+            "complete_histories": st.histories, "distinct_outcome_vectors": st.outcomes.len(), "timer_ids_checked": st.ids_seen}));
+        total.states += st.states;
+        total.transitions += st.transitions;
+        total.histories += st.histories;
+        total.steps += st.steps;
+        total.ids_seen += st.ids_seen;
+        total.outcomes.extend(st.outcomes);
+        if let Some(s) = sample {
+            samples.push(json!({"api": "command", "timers": kinds, "history": s}));
+        }
+        for f in found {
+            rep.violation(mc_kit::Violation {
+                key: f.fail.key.clone(),
+                what: format!("timers {:?} history {:?}: {}", f.kinds, f.history, f.fail.what),
+                replay: timers::case_json(&f.kinds, &f.history),
+                size: f.history.len(),
+            });
+        }
+    }
+    // legacy API through Core
+    let mut lst = TStats::default();
+    let mut lfound = vec![];
+    let mut lsample = None;
+    timers::legacy::explore(tier.pick(7, 9), tier.pick(2, 3), &mut lst, &mut lfound, &mut lsample);
+    per.push(json!({"api": "legacy capability through Core", "timers": tier.pick("<= 2", "<= 3"), "depth_bound": tier.pick(7, 9), "states": lst.states,
+        "transitions": lst.transitions, "complete_histories": lst.histories, "distinct_outcome_vectors": lst.outcomes.len()}));
+    if let Some(s) = lsample {
+        samples.push(json!({"api": "legacy", "history": s}));
+    }
+    for f in lfound {
+        rep.violation(mc_kit::Violation {
+            key: format!("legacy/{}", f.fail.key),
+            what: format!("legacy history {:?}: {}", f.history, f.fail.what),
+            replay: timers::legacy::case_json(&f.history),
+            size: f.history.len(),
+        });
+    }
+    total.states += lst.states;
+    total.transitions += lst.transitions;
+    total.histories += lst.histories;
+    total.outcomes.extend(lst.outcomes);
+    if total.outcomes.len() < 2 {
+        mc_kit::machinery_error("vacuous: fewer than 2 distinct outcome vectors");
+    }
+    let coverage = json!({
+        "states": total.states,
+        "transitions": total.transitions,
+        "traces_validated_against_impl": total.histories,
+        "evaluations": total.histories,
+        "distinct_nontrivial": total.outcomes.len(),
+        "rule": "states = nodes of the history trees over the alphabet {poll, shell fires, app clears, handle dropped, request dropped, clear answered, clear request dropped, duplicate and late answers}, each followed by an observation or not (unobserved steps bounded), for 1-2 timers created with notify_after / notify_at; every node re-executed on fresh real timers and compared with the per-timer protocol machine of the property; distinct_nontrivial = distinct vectors of final outcomes (none / completed / cleared per timer). Timer ids of every timer created during the whole run (one set per process, filled from 16 worker threads) must be pairwise distinct.",
+        "configurations": per,
+        "timer_ids_checked_for_uniqueness": total.ids_seen,
+        "exhaustive": true,
+        "samples": samples,
+    });
+    rep.finish(
+        "model_checking",
+        coverage,
+        &[
+            "answers of the wrong kind or with another timer's id are outside the property's quantifier (they are covered by C12's known findings)",
+            "uniqueness under concurrent allocation is observed from 16 free-running worker threads, not explored by the controlled scheduler (one fetch_add)",
+        ],
+    )
+}
+
 fn main() {
     let args: Vec<String> = std::env::args().skip(1).collect();
     let tier = Tier::from_args(&args);
@@ -173,6 +263,7 @@ fn main() {
             dev(&args[1..]);
             0
         }
+        Some("C18") => timers_property(tier),
         Some("C08") => sched_property(tier, mc_kit::arg_value(&args, "--only")),
         Some(id @ ("C01" | "C02" | "C03" | "C04" | "C05" | "C06" | "C07")) => seqx_property(id, tier),
         _ => {
